@@ -193,6 +193,16 @@ func c16Spellings(ns int64) []string {
 	if frac == 0 {
 		out = append(out, strconv.FormatInt(s, 10)) // unix seconds
 	}
+	// fractional seconds written with fewer or more digits than three: .5 is half a second, .50 and .500000 too
+	if frac != 0 {
+		digits := fmt.Sprintf("%03d", frac/1e6)
+		if t := strings.TrimRight(digits, "0"); t != digits {
+			out = append(out, fmt.Sprintf("%d.%s", s, t))
+		}
+		out = append(out, fmt.Sprintf("%d.%s000", s, digits))
+	} else {
+		out = append(out, fmt.Sprintf("%d.0", s))
+	}
 	return out
 }
 
